@@ -64,6 +64,8 @@ def sig(fl):
             kind = None
     elif view is not None and "node" in e and e["node"] != view:
         kind = "step-on-node-%s-moved-the-ledgers-of-another-node:" % ("other" if op != "reserve" else "reserved") + _ledger_kind(e.get("obs", {}))
+    elif view is not None and op == "unreserve" and e.get("obs") == prev.get("obs"):
+        kind = "unreserve-released-nothing"
     elif op in ("alloc", "reserve"):
         kind = _alloc_kind(e, prev)
         if kind is None and _ledger_kind(e.get("obs", {})).startswith("ledgers-differ"):
@@ -89,6 +91,9 @@ CONF = {
         {"module": "MC_Device", "cfg": {"quick": None, "thorough": "MC_thorough_a.cfg"}, "timeout": 1800},
         {"module": "MC_Device", "cfg": {"quick": None, "thorough": "MC_thorough_c.cfg"}, "timeout": 1800},
         {"module": "MC_Device", "cfg": {"quick": None, "thorough": "MC_thorough_b.cfg"}, "timeout": 2700},
+        # one scheduling cycle taken apart (PreFilter / what-if RemovePod / Filter / Reserve) with the environment moving in
+        # between: the what-if steps and Filter leave the ledgers alone, Reserve commits against the state at Reserve time
+        {"module": "MC_DeviceCycle", "cfg": {"quick": "MC_cycle_quick.cfg", "thorough": "MC_cycle_thorough.cfg"}, "timeout": 900},
     ],
     "gen": [
         {"module": "Gen_Device", "cfg": {"quick": "Gen_quick.cfg", "thorough": "Gen_thorough.cfg"}, "timeout": 1500},
@@ -104,18 +109,33 @@ CONF = {
     "trace": {"module": "DeviceTrace", "cfg": "Trace.cfg", "timeout": {"quick": 900, "thorough": 2400}, "chunk_events": 40000},
     "signature": sig,
     "rule": "one segment per history executed on a real nodeDeviceCache (device / pod event handlers, AutopilotAllocator.Allocate, "
-            "the ledger update of Reserve / Unreserve); after EVERY operation the projection of getNodeDeviceSummary() is compared "
-            "with the from-scratch operators of Device.tla; distinct by content hash, non-trivial = at least one checked event",
+            "the ledger update of Reserve / Unreserve) and, plugin level, one segment per (history, node) of whole scheduling cycles run "
+            "through the real Plugin on two nodes (PreFilter, PreFilterExtensions RemovePod / AddPod, Filter, Reserve, Unreserve, PreBind); "
+            "after EVERY operation the projection of getNodeDeviceSummary() of the node is compared with the from-scratch operators of "
+            "Device.tla; distinct by content hash, non-trivial = at least one checked event",
     "assumptions": [
-        "one node; device types gpu / rdma / fpga with the resources the koordlet reports for them (gpu-core, gpu-memory-ratio, gpu-memory; rdma; fpga); "
+        "one node (plugin-level driver: two); device types gpu / rdma / fpga with the resources the koordlet reports for them (gpu-core, gpu-memory-ratio, gpu-memory; rdma; fpga); "
         "the memory size of a GPU minor is fixed within a history and a healthy GPU reports 100 percent (GPU totals change by health / removal, "
         "rdma / fpga totals also shrink to 50)",
         "requests are expressed as pod resource requests the plugin accepts (percent of gpu-core / gpu-memory-ratio, gpu-memory in bytes, "
         "gpu.shared for several fractional GPUs; rdma / fpga percent, several whole devices); device hints (VF, exclusive policy, "
-        "apply-for-all), joint allocation, GPU partition tables, reservations / preemption restore states are not generated",
+        "apply-for-all), joint allocation, GPU partition tables, reservations (restore states) are not generated; the preemption "
+        "what-if (RemovePod / AddPod) is driven by the plugin-level driver only",
         "GPU memory asked for in one unit is charged in both (fillGPUTotalMem): (A) is checked on the amounts asked for, (U) on everything "
         "charged, (K) counts a device as fitting only if the derived amount (exact floor) is free too",
-        "allocate + commit is one step (the property's quantifier): no inventory refresh between Allocate and the ledger update of Reserve",
+        "single-node driver: allocate + commit is one step (the property's quantifier): no inventory refresh between Allocate and the "
+        "ledger update of Reserve. Plugin-level driver: Filter and Reserve are separate steps with informer events in between; what Reserve "
+        "commits is judged against the node's state at Reserve time (Reserve itself - allocate + ledger update - is one step)",
+        "plugin-level driver: two nodes with the same machine model (GPU memory size per minor), one Plugin built from the package's test "
+        "fixtures (default args, fake reservation cache / nominator: no reservations), one scheduling cycle at a time plus reserved pods "
+        "awaiting bind / roll-back; the what-if steps (PreFilterExtensions RemovePod / AddPod, Filter on the what-if state) run on "
+        "cycleState.Clone() per node, as the preemption dry-run and the nominated-pods pass of the scheduler do; Reserve runs only on a "
+        "node that passed Filter in the cycle; a failed Reserve is followed by the framework's Unreserve",
+        "a designated allocation (device-allocated annotation honoured through the deviceshare scheduling hint) is a recorded "
+        "allocation: exactly one entry per device asked for, carrying the per-device amounts the pod asks for (percent requests); the "
+        "pod may then use only those minors ((A)/(K) with that restriction); without the hint the annotation is ignored",
+        "verdicts of Filter / what-if Filter are not judged (the statement speaks about allocations); RestoreReservation / reservation "
+        "restore states, NUMA topology hints, joint allocation and VF selection are not driven",
         "informer semantics: the old object of an update / delete is the object delivered last; duplicate adds re-deliver the current object, "
         "duplicate deletes re-deliver the object that went away; allocation annotations delivered for assigned pods are arbitrary "
         "(a device over-committed by such an annotation or by an inventory shrink is exempt from (U) until its usage falls back)",
